@@ -141,17 +141,21 @@ func (h healthyRef) treePath(slot int) string {
 }
 
 type c02Case struct {
-	Leg       string       `json:"leg"`
-	Extractor string       `json:"extractor"`
-	Path      string       `json:"path"`
-	Base      string       `json:"base,omitempty"`    // repository-relative seed fixture
-	Raw       string       `json:"raw_b64,omitempty"` // literal seed bytes when there is no fixture
-	Muts      []Mut        `json:"muts,omitempty"`
-	AuxPath   string       `json:"aux_path,omitempty"` // a neighbour file of the fixture (etc/os-release, _locales/..., go.sum) mutated by AuxMuts
-	AuxMuts   []Mut        `json:"aux_muts,omitempty"`
-	Contain   bool         `json:"contain,omitempty"`
-	ScanOpts  int          `json:"scan_opts,omitempty"` // containment scans: 1 ErrorOnFSErrors, 2 StoreAbsolutePath, 4 UseGitignore, 8 PrintDurationAnalysis, 16 every extractor of the registry enabled (not only the three concerned)
-	Healthy   []healthyRef `json:"healthy,omitempty"`
+	Leg       string `json:"leg"`
+	Extractor string `json:"extractor"`
+	Path      string `json:"path"`
+	Base      string `json:"base,omitempty"`    // repository-relative seed fixture
+	Raw       string `json:"raw_b64,omitempty"` // literal seed bytes when there is no fixture
+	Muts      []Mut  `json:"muts,omitempty"`
+	// OSRel: how the tree presents os-release to the extractors that consult it ("" = a Debian
+	// os-release at etc/os-release; see osRelVariants: usr_lib_only, empty, no_id, absent,
+	// etc_symlink, etc_dir).
+	OSRel    string       `json:"os_release,omitempty"`
+	AuxPath  string       `json:"aux_path,omitempty"` // a neighbour file of the fixture (etc/os-release, _locales/..., go.sum) mutated by AuxMuts
+	AuxMuts  []Mut        `json:"aux_muts,omitempty"`
+	Contain  bool         `json:"contain,omitempty"`
+	ScanOpts int          `json:"scan_opts,omitempty"` // containment scans: 1 ErrorOnFSErrors, 2 StoreAbsolutePath, 4 UseGitignore, 8 PrintDurationAnalysis, 16 every extractor of the registry enabled (not only the three concerned)
+	Healthy  []healthyRef `json:"healthy,omitempty"`
 }
 
 // rawSeeds are tiny documents used next to the fixtures (and for os/nix, which has no fixtures
@@ -382,9 +386,7 @@ func genC02(t *rapid.T) c02Case {
 	if useRaw {
 		c.Raw = base64.StdEncoding.EncodeToString([]byte(rapid.SampledFrom(rawSeeds).Draw(t, "raw")))
 		var paths []string
-		for _, p := range e.Prod {
-			paths = append(paths, p.Path)
-		}
+		paths = append(paths, e.locations()...)
 		if len(paths) == 0 {
 			for _, f := range e.Fixtures {
 				paths = append(paths, f.Paths...)
@@ -401,12 +403,20 @@ func genC02(t *rapid.T) c02Case {
 	for i := 0; i < n; i++ {
 		c.Muts = append(c.Muts, genMut(t, e, 0))
 	}
+	// how the tree presents os-release: extractors that consult it get another presentation than
+	// the default in two of five cases, the others (which may reach it through a helper) rarely
+	if k := rapid.IntRange(0, 19).Draw(t, "os_release"); (e.OSRel && k < 8) || k == 0 {
+		c.OSRel = osRelVariants[1+upick(t, "os_release_variant", len(osRelVariants)-1)]
+	}
 	if c.Base != "" && rapid.IntRange(0, 9).Draw(t, "aux") == 0 {
 		// mutate a neighbour file instead (the fixture itself stays whole so that the extractor
 		// gets as far as reading the neighbour)
-		aux := auxFiles(e, c.Base, c.Path)
+		aux := auxFilesV(e, c.Base, c.Path, c.OSRel)
 		var names []string
-		for p := range aux {
+		for p, src := range aux {
+			if strings.HasPrefix(src, "@") || src == "/" {
+				continue // a link or a directory has no content to mutate
+			}
 			names = append(names, p)
 		}
 		sort.Strings(names)
@@ -549,7 +559,7 @@ func serveCase(r execRequest) execReply {
 		rep.Harness = err.Error()
 		return rep
 	}
-	res, err := runExtract(e, c.Base, c.Path, data, 10*time.Minute, auxOverride(e, c.Base, c.Path, c.AuxPath, c.AuxMuts)) // the parent owns the deadline
+	res, err := runExtractV(e, c.Base, c.Path, c.OSRel, data, 10*time.Minute, auxOverride(e, c.Base, c.Path, c.OSRel, c.AuxPath, c.AuxMuts)) // the parent owns the deadline
 	if err != nil {
 		rep.Harness = err.Error()
 		return rep
@@ -774,6 +784,9 @@ func propC02(c c02Case) (ev.Outcome, error) {
 	if err != nil {
 		return ev.Outcome{}, err
 	}
+	if !osRelValid(c.OSRel) {
+		return ev.Outcome{}, fmt.Errorf("harness: unknown os-release variant %q", c.OSRel)
+	}
 	if !required(e.New, c.Path, int64(len(data)), e.execPath(c.Path)) {
 		// not a path the extractor accepts (can only happen in a hand-written replay file)
 		return ev.Outcome{Classes: []string{"path_not_required"}}, nil
@@ -785,7 +798,28 @@ func propC02(c c02Case) (ev.Outcome, error) {
 	for _, m := range c.Muts {
 		out.Classes = append(out.Classes, "mut:"+m.Op)
 	}
-	for p, b := range auxOverride(e, c.Base, c.Path, c.AuxPath, c.AuxMuts) {
+	if c.OSRel != "" {
+		out.Key += "\x00os-release:" + c.OSRel
+	}
+	// which of the extractor's known locations the file lies at, and what the tree says about the
+	// operating system (counted apart for the extractors that consult os-release)
+	if i := e.locIndex(c.Path); i >= 0 {
+		out.Classes = append(out.Classes, fmt.Sprintf("accepted_location:%d", i))
+		if len(e.locations()) > 1 {
+			out.Classes = append(out.Classes, fmt.Sprintf("accepted_location:%s#%d", c.Extractor, i))
+		}
+	} else {
+		out.Classes = append(out.Classes, "accepted_location:fixture_own_path")
+	}
+	if e.OSRel {
+		out.Classes = append(out.Classes, "osrelease:"+osRelName(c.OSRel))
+		if c.OSRel != "" {
+			out.Classes = append(out.Classes, "osrelease:"+c.Extractor+":"+c.OSRel)
+		}
+	} else {
+		out.Classes = append(out.Classes, "osrelease_not_consulted:"+osRelName(c.OSRel))
+	}
+	for p, b := range auxOverride(e, c.Base, c.Path, c.OSRel, c.AuxPath, c.AuxMuts) {
 		asum := sha256.Sum256(b)
 		out.Key += "\x00" + p + "\x00" + hex.EncodeToString(asum[:])
 		out.Classes = append(out.Classes, "aux_mutated", "aux_mutated:"+path.Base(p))
@@ -968,7 +1002,7 @@ func checkContainment(e *extInfo, c c02Case, data []byte) error {
 	}
 	defer os.RemoveAll(root)
 	exts := []*extInfo{e}
-	if err := writeAux(root, auxFiles(e, c.Base, c.Path)); err != nil {
+	if err := writeAux(root, auxFilesV(e, c.Base, c.Path, c.OSRel)); err != nil {
 		return fmt.Errorf("harness: %w", err)
 	}
 
@@ -1210,7 +1244,7 @@ func TestC02_isolated(t *testing.T) {
 		limit = 3 * time.Second
 	}
 	cpu0 := processCPU()
-	r, err := runExtract(e, c.Base, c.Path, data, limit, auxOverride(e, c.Base, c.Path, c.AuxPath, c.AuxMuts))
+	r, err := runExtractV(e, c.Base, c.Path, c.OSRel, data, limit, auxOverride(e, c.Base, c.Path, c.OSRel, c.AuxPath, c.AuxMuts))
 	cpuUsed := processCPU() - cpu0
 	if r.TimedOut && os.Getenv("C02_DUMP") != "" {
 		_ = pprof.Lookup("goroutine").WriteTo(os.Stdout, 2)
